@@ -56,6 +56,12 @@ def source_lexicons(src_version: str):
     other['entries'] = [{'id': 'm2-e1', 'meta': None, 'lemma': {'writtenForm': 'w', 'partOfSpeech': 'n'},
                          'senses': [{'id': 'm2-s1', 'synset': 'm2-ss1', 'meta': None}]}]
     other['synsets'] = [{'id': 'm2-ss1', 'ili': 'i1', 'partOfSpeech': 'n', 'meta': None}]
+    if src_version == '1.0':
+        other['entries'][0]['frames'] = [{'subcategorizationFrame': 'M frame'}]      # id-less, like those of `a`
+    else:
+        other['frames'] = [{'subcategorizationFrame': 'M frame without id'}]
+        other['entries'][0]['senses'][0]['subcat'] = []
+        other['entries'][0]['senses'][0].pop('subcat')
     yield 'two', [b, other]
     yield 'minimal', [lmfgen.minimal_lexicon('m')]
 
